@@ -784,7 +784,6 @@ class TensorDictBase(MutableMapping):
             dim=dim,
             keepdim=keepdim,
             further_reduce=reduce,
-            tuple_ok=False,
             values_only=True,
             call_on_nested=False,
         )
@@ -917,7 +916,6 @@ class TensorDictBase(MutableMapping):
             dim=dim,
             keepdim=keepdim,
             further_reduce=reduce,
-            tuple_ok=False,
             values_only=True,
             call_on_nested=False,
         )
